@@ -6,7 +6,8 @@ Open Scope Z_scope.
 
 Record case := {
   c_action_time : Z; c_steps : list hstep;
-  c_final : list (nat * Z); c_twin_final : list (nat * Z); c_has_twin : bool
+  c_final : list (nat * Z); c_twin_final : list (nat * Z); c_has_twin : bool;
+  c_stranded : bool   (* the history ended because the hand could not go on, though nothing was made to fail and nobody left *)
 }.
 
 (* the hand engine's own verdict on the player's action: no backend call of the action's kind failed *)
@@ -62,7 +63,9 @@ Definition check_case (c : case) : list (nat * nat) :=
   (match c10_pays 0 (c_steps c) with Some i => [(3%nat, (i * 10 + 7)%nat)] | None => [] end) ++
   (match c13_retry 0 (c_steps c) with Some i => [(4%nat, (i * 10 + 3)%nat)] | None => [] end) ++
   (if negb (c_has_twin c) || fin_eqb (c_final c) (c_twin_final c) then [] else [(4%nat, 4%nat)]) ++
-  (match c14_run 0 [] (c_steps c) with Some (i, d) => [(5%nat, (i * 10 + d)%nat)] | None => [] end).
+  (match c14_run 0 [] (c_steps c) with Some (i, d) => [(5%nat, (i * 10 + d)%nat)] | None => [] end) ++
+  (* C11: the hand always goes on to settlement *)
+  (if c_stranded c then [(7%nat, (Nat.pred (List.length (c_steps c)) * 10 + 6)%nat)] else []).
 
 Fixpoint check_all (i : nat) (cs : list case) : list (nat * (nat * nat)) :=
   match cs with
@@ -88,5 +91,5 @@ Definition mkstep (c : hcall) (pre : hsnap) (ok : bool) (post quiet : hsnap) (ac
   {| st_call := c; st_pre := pre; st_ok := ok; st_post := post; st_quiet := quiet; st_acts := acts; st_errs := errs; st_be := be;
      st_now0 := n0; st_now1 := n1; st_now2 := n2; st_seen := seen; st_closed := closed; st_wedged := wedged; st_settle_stats := ss;
      st_ret := ret; st_result_n := rn; st_hand_n := hn; st_ext_injected := xi; st_panic := pn |}.
-Definition mkcase (at_ : Z) (steps : list hstep) (fin tw : list (nat * Z)) (ht : bool) : case :=
-  {| c_action_time := at_; c_steps := steps; c_final := fin; c_twin_final := tw; c_has_twin := ht |}.
+Definition mkcase (at_ : Z) (steps : list hstep) (fin tw : list (nat * Z)) (ht stranded : bool) : case :=
+  {| c_action_time := at_; c_steps := steps; c_final := fin; c_twin_final := tw; c_has_twin := ht; c_stranded := stranded |}.
